@@ -120,7 +120,8 @@ class Spec:
         # third phase: new hopping parameters while running, then the *same* frame number again (whatever a
         # transceiver remembers about "the current frame" must not outlive its hopping configuration)
         for i in [i for i, t in enumerate(m.trx) if t.running and t.ready][:2]:
-            for k, fhv in enumerate((0, 2, 1)):
+            # (the last step also changes the number of channels from 3 to 5, i.e. the width of the T' mask)
+            for k, fhv in enumerate((0, 2, 1, 4)):
                 v = W.ctrl(i, fh_cmd(fhv))
                 if v:
                     return [(v[0][0] + "-probe", "re-SETFH of %s: %s" % (m.trx[i].d.name, v[0][1]))]
@@ -128,7 +129,10 @@ class Spec:
                     if not t.running or not t.ready:
                         continue
                     # (the frame order alternates, so that the first frame after a SETFH is the last one before it)
-                    for fn in ((self.fns[-1], self.fns[1]) if k % 2 == 0 else (self.fns[1], self.fns[-1])):
+                    fns = (self.fns[-1], self.fns[1]) if k % 2 == 0 else (self.fns[1], self.fns[-1])
+                    if k == 3:
+                        fns = fns + tuple(self.fns[2:8])
+                    for fn in fns:
                         v = W.burst(j, fn, tn=(fn + j) % 8, pwr=j)
                         v += W.handler_tick(fn)
                         W.nprobe += 1
